@@ -18,6 +18,20 @@ func OnceFunc(f func()) func()                                 { return sync.Onc
 func OnceValue[T any](f func() T) func() T                     { return sync.OnceValue(f) }
 func OnceValues[T1, T2 any](f func() (T1, T2)) func() (T1, T2) { return sync.OnceValues(f) }
 
+// holder remembers who acquired a primitive last and when (logical clock of the execution), so
+// that a deadlock verdict can name the operation that did not release it.
+type holder struct {
+	thread int
+	tick   int64
+}
+
+//go:norace
+func (h *holder) note() {
+	if cur != nil && cur.cur != nil {
+		h.thread, h.tick = cur.cur.id, cur.clock
+	}
+}
+
 const inconsistent = "primitive state differs from the model (it was used outside the scheduler, or leaked from an aborted execution)"
 
 // ---- Mutex --------------------------------------------------------------------------------------
@@ -27,13 +41,19 @@ const inconsistent = "primitive state differs from the model (it was used outsid
 type Mutex struct {
 	mu   sync.Mutex
 	held bool // model state, touched under the scheduler only
+	own  holder
 }
 
 //go:norace
 func (m *Mutex) isHeld() bool { return m.held }
 
 //go:norace
-func (m *Mutex) setHeld(v bool) { m.held = v }
+func (m *Mutex) setHeld(v bool) {
+	m.held = v
+	if v {
+		m.own.note()
+	}
+}
 
 func (m *Mutex) Lock() {
 	if !on() {
@@ -90,22 +110,34 @@ func (m *Mutex) Unlock() {
 // RWMutex models sync.RWMutex including writer preference: a writer first announces itself
 // (from then on new readers are excluded), then waits for the active readers to drain.
 type RWMutex struct {
-	mu sync.RWMutex
-	w  int32 // 0 none, 1 announced, 2 held (model)
-	r  int32 // active readers (model)
+	mu  sync.RWMutex
+	w   int32  // 0 none, 1 announced, 2 held (model)
+	r   int32  // active readers (model)
+	own holder // last thread that announced/took the write lock
+	rd  holder // last thread that took a read lock
 }
 
 //go:norace
 func (rw *RWMutex) getW() int32 { return rw.w }
 
 //go:norace
-func (rw *RWMutex) setW(v int32) { rw.w = v }
+func (rw *RWMutex) setW(v int32) {
+	rw.w = v
+	if v != 0 {
+		rw.own.note()
+	}
+}
 
 //go:norace
 func (rw *RWMutex) getR() int32 { return rw.r }
 
 //go:norace
-func (rw *RWMutex) addR(d int32) { rw.r += d }
+func (rw *RWMutex) addR(d int32) {
+	rw.r += d
+	if d > 0 {
+		rw.rd.note()
+	}
+}
 
 func (rw *RWMutex) Lock() {
 	if !on() {
